@@ -952,9 +952,9 @@ def deep_strip(t):
     if h == "index":
         return ("index", deep_strip(t[1]), deep_strip(t[2]))
     if h == "call":
-        return strip_try(("call", t[1], tuple(deep_strip(a) for a in t[2]), t[3]))
+        return strip_try(("call", t[1], tuple(deep_strip(a) for a in t[2])) + tuple(t[3:]))
     if h == "callind":
-        return ("callind", deep_strip(t[1]), tuple(deep_strip(a) for a in t[2]), t[3])
+        return ("callind", deep_strip(t[1]), tuple(deep_strip(a) for a in t[2])) + tuple(t[3:])
     if h == "bin":
         return ("bin", t[1], deep_strip(t[2]), deep_strip(t[3]))
     if h == "un":
@@ -1315,7 +1315,7 @@ def canon_cmp(c):
 
 _OPS_RE = re.compile(r"std::ops::(Add|Sub|Mul|Div|Neg)(?:<[^>]*>)?>?::(add|sub|mul|div|neg)$")
 _IDENT_CALL_RE = re.compile(
-    r"(::as_f64::AsF64>::as_f64|::AsF64::as_f64|::to_f64|::unit::\w+::\w+::new|OrderedFloat<T>::into_inner|<T as std::convert::Into<U>>::into|std::convert::Into::into|std::convert::From::from|as std::convert::From<f64>>::from|as std::convert::From<\w+>>::from)$"
+    r"(::as_f64::AsF64>::as_f64|::AsF64::as_f64|::to_f64|::unit::\w+::\w+::new|OrderedFloat<T>::into_inner|<T as std::convert::Into<U>>::into|std::convert::Into::into|std::convert::From::from|as std::convert::From<f64>>::from|as std::convert::From<[\w:]+>>::from)(\{[^{}]*\})?$"
 )
 
 
